@@ -4,7 +4,6 @@ import (
 	"context"
 	"fmt"
 	"net/http/httptest"
-	"net/url"
 	"strings"
 	"time"
 
@@ -367,7 +366,7 @@ func emitCalMg(o *Out, r *RNG, reqPath string, mg *caldav.CalendarMultiGet) {
 		paths = []string{reqPath}
 	}
 	for _, p := range paths {
-		root.Add(E("DAV:", "href").T((&url.URL{Path: p}).String()))
+		root.Add(E("DAV:", "href").T(hrefSpellingPath(p)))
 	}
 	doc := randStyle(r).doc(root)
 	t, err := treeOfBytes([]byte(doc))
